@@ -39,7 +39,10 @@ for _name in ("parse_freeform_docstr_examples", "parse_google_docstr_examples", 
              raises={"DoctestParseError?": None, "MalformedDocstr?": None},
              note="assumed here: a style parser fails only with the library's own DoctestParseError (C14.wrap: every exception of "
                   "DoctestParser.parse is wrapped) or MalformedDocstr (google block splitter)")
-contract("xdoctest.utils.util_str:ensure_unicode", params={"text": "str"}, returns="str", trusted=True, log=False)
+contract("xdoctest.utils.util_str:ensure_unicode", params={"text": "str"}, returns="str", log=False, modifies=[],
+         ensures=[("a-str-is-returned-unchanged", "result == text")], props=["C14"], opts={"native": False},
+         note="for the str arguments the parsers pass, the text is returned as it is (the bytes branch is outside the declared argument type)",
+         sentinel=("returns-something-else", "result != text"))
 
 contract("xdoctest.core:parse_docstr_examples",
          params={"docstr": "str", "callname": "Maybe[str]", "modpath": "Maybe[str]", "lineno": "int",
